@@ -581,6 +581,72 @@ fn stress(ctx: &Ctx) -> SubReport {
         }
     });
     }
+    // phase 3 - paired last releases: two threads hold the last two handles of a content that nobody
+    // interns again and release them at the same instant (spin rendezvous, swept skew); whichever
+    // of them releases last must clean the table, so afterwards it holds no entry for that content.
+    let pair_rounds = ctx.cfg.tier.pick(40_000usize, 1_000_000);
+    let pairs = 8usize;
+    if errors.lock().unwrap().is_empty() {
+        rbx_types::verif_set_yield_hook(None);
+        std::thread::scope(|s| {
+            for p in 0..pairs {
+                let errors = &errors;
+                s.spawn(move || {
+                    let slot: Mutex<Option<SharedString>> = Mutex::new(None);
+                    let arrive = std::sync::atomic::AtomicUsize::new(0);
+                    let left = std::sync::atomic::AtomicUsize::new(0);
+                    let meet = |n: usize, a: &std::sync::atomic::AtomicUsize| {
+                        a.fetch_add(1, Ordering::AcqRel);
+                        while a.load(Ordering::Acquire) < n {
+                            std::hint::spin_loop();
+                        }
+                    };
+                    let content = |i: usize| format!("c18-pair-{tag}-{p}-{i}").into_bytes();
+                    std::thread::scope(|s2| {
+                        s2.spawn(|| {
+                            for i in 0..pair_rounds {
+                                // wait for the handle of this round
+                                let h = loop {
+                                    if let Some(h) = slot.lock().unwrap().take() {
+                                        break h;
+                                    }
+                                    std::hint::spin_loop();
+                                };
+                                meet(2 * (i + 1), &arrive);
+                                for _ in 0..(i % 48) {
+                                    std::hint::spin_loop();
+                                }
+                                drop(h);
+                                left.fetch_add(1, Ordering::AcqRel);
+                            }
+                        });
+                        let mut leaked = 0usize;
+                        for i in 0..pair_rounds {
+                            let c = content(i);
+                            let mine = SharedString::new(c.clone());
+                            *slot.lock().unwrap() = Some(mine.clone());
+                            meet(2 * (i + 1), &arrive);
+                            for _ in 0..((i / 48) % 48) {
+                                std::hint::spin_loop();
+                            }
+                            drop(mine);
+                            while left.load(Ordering::Acquire) < i + 1 {
+                                std::hint::spin_loop();
+                            }
+                            if rbx_types::verif_cache_has(&c) {
+                                leaked += 1;
+                            }
+                        }
+                        if leaked > 0 {
+                            errors.lock().unwrap().push(format!("paired releases: after {leaked} of {pair_rounds} rounds the intern table still holds an entry although both handles of the content were dropped"));
+                        }
+                    });
+                });
+            }
+        });
+        rbx_types::verif_set_yield_hook(Some(hook));
+        r.evaluations += (pair_rounds * pairs) as u64;
+    }
     r.evaluations += (iters * threads) as u64;
     r.distinct_nontrivial = r.evaluations;
     r.notes.push("uncontrolled schedule: a stress sample, not an exhaustive exploration".into());
